@@ -299,6 +299,35 @@ func (in *c05Injector) inject() {
 		if !ok && !c.Failed() {
 			c.Failf("C05/keep-without-487", "role=%s own=%#x theirs=%#x: expected exactly one 487 error response, got %d replies %v", role, own, theirs, len(replies), describeMsgs(replies))
 		}
+		if ok && !c.Failed() && c.T.Bias(1, 3, "dup-conflict") {
+			// the same datagram once more (duplicated on the path, or the peer's retransmission after the first
+			// 487 was lost): the decision and the answer are the same
+			seen := map[uint64]bool{}
+			for _, q := range d.W.InFlight() {
+				seen[q.ID] = true
+			}
+			dg2 := d.W.Inject(src, dst, dg.Payload, "role-conflict-duplicate")
+			c.Fault("conflict-duplicated")
+			if res, _ := d.S.Deliver(dg2); res == simnet.Delivered {
+				n487 := 0
+				for _, q := range d.W.InFlight() {
+					if seen[q.ID] || !ids[q.SockID] {
+						continue
+					}
+					if m := rig.Decode(q.Payload); m.IsSTUN && m.TxID == txid {
+						if m.Class == stun.ClassErrorResponse && m.ErrorCode == 487 {
+							n487++
+						} else {
+							c.Failf("C05/duplicate-conflict-answered-differently", "the second delivery of the conflicting request was answered with %s/%s err=%d", m.Method, m.Class, m.ErrorCode)
+						}
+						d.W.Drop(q)
+					}
+				}
+				if n487 != 1 && !c.Failed() {
+					c.Failf("C05/keep-without-487/duplicate", "role=%s own=%#x theirs=%#x: the second delivery of the same conflicting request got %d 487 answers (the first got one)", role, own, theirs, n487)
+				}
+			}
+		}
 	} else {
 		if len(replies) != 0 {
 			c.Failf("C05/switch-with-reply", "role=%s own=%#x theirs=%#x: receiver must switch silently, got %v", role, own, theirs, describeMsgs(replies))
